@@ -23,6 +23,8 @@ type (
 		cancelFn context.CancelFunc
 		wg       sync.WaitGroup
 		hook     DispatchHook
+		conns    map[*clientCxn]struct{} // connections accepted by this instance
+		stopping bool
 
 		port            int
 		iface           string
@@ -98,6 +100,36 @@ func (eng *RedisEmu) RequestTermination() {
 		eng.cancelFn()
 		eng.cancelFn = nil
 	}
+
+	// existing connections end with the emulator: WaitForTermination waits for them
+	eng.stopping = true
+	for cc := range eng.conns {
+		cc.RequestClose()
+	}
+}
+
+// registers a connection accepted by this instance; false when terminating
+func (eng *RedisEmu) trackConn(connection net.Conn, dispatcher *cmdDispatcher) {
+	eng.mu.Lock()
+	defer eng.mu.Unlock()
+
+	if eng.stopping {
+		connection.Close()
+		return
+	}
+
+	eng.wg.Add(1)
+	var cc *clientCxn
+	cc = newClientCxn(eng.l, connection, dispatcher, func() {
+		eng.mu.Lock()
+		delete(eng.conns, cc)
+		eng.mu.Unlock()
+		eng.wg.Done()
+	})
+	if eng.conns == nil {
+		eng.conns = map[*clientCxn]struct{}{}
+	}
+	eng.conns[cc] = struct{}{}
 }
 
 func (eng *RedisEmu) killSignalMonitor() {
@@ -246,7 +278,7 @@ func (eng *RedisEmu) startServer() {
 				break
 			}
 			eng.l.Infof("client connected: %s", connection.RemoteAddr().String())
-			newClientCxn(eng.l, connection, dispatcher)
+			eng.trackConn(connection, dispatcher)
 		}
 	}()
 }
